@@ -205,7 +205,7 @@ def keyword_tasks(root, timeout_ms=10000, drafts_=(3, 4, 6, 7)):
         for k, fkey in tabs[d].keywords.items():
             if k in ("$ref", "format"):
                 continue
-            if k not in drafts.K:
-                continue
+            if k not in drafts.K or k not in drafts.VOCAB[d]:
+                continue      # a table entry outside the draft's vocabulary is a failed T obligation (C01, C10)
             tasks.append(KeywordTask(root, d, k, fkey, timeout_ms))
     return tasks
